@@ -19,6 +19,11 @@ pub struct DictSpec {
     /// to make the dictionary's offsets observable they are overwritten with these (clamped to the content)
     #[serde(default)]
     pub rep_patch: Option<[u16; 3]>,
+    /// KiB of further content put IN FRONT of the trained content: dictionaries of several hundred
+    /// KiB, whose older parts lie further back than window + one block from the frame's first byte
+    /// (the format lets a match reach all of it while the output is still within the window)
+    #[serde(default)]
+    pub pad_kib: u16,
 }
 
 type DictKey = (u8, u32, u32, u32, i32, u8);
@@ -91,6 +96,14 @@ impl DictSpec {
             built?
         };
         let mut bytes = bytes;
+        if self.pad_kib > 0 {
+            if let Ok(m) = crate::model::frame::parse_dict(&bytes) {
+                let mut r2 = Rng(self.seed as u64 ^ 0xD1C7);
+                let filler = make_sample(&vocab, &mut r2, self.pad_kib as usize * 1024);
+                let at = m.entropy_len;
+                bytes.splice(at..at, filler);
+            }
+        }
         if let Some(rp) = self.rep_patch {
             if let Ok(m) = crate::model::frame::parse_dict(&bytes) {
                 if m.entropy_len >= 12 && !m.content.is_empty() {
@@ -116,8 +129,9 @@ pub fn dict_strategy() -> impl Strategy<Value = DictSpec> {
         1i32..=19,
         any::<u8>(),
         prop::option::weighted(0.7, [1u16..=40, 1u16..=300, 1u16..=3000]),
+        prop_oneof![5 => Just(0u16), 1 => 130u16..=600],
     )
-        .prop_map(|(kind, seed, size, id, level, vocab, rep_patch)| DictSpec { kind, seed, size, id, level, vocab, rep_patch })
+        .prop_map(|(kind, seed, size, id, level, vocab, rep_patch, pad_kib)| DictSpec { kind, seed, size, id, level, vocab, rep_patch, pad_kib })
 }
 
 /// How the input of a dictionary frame relates to the dictionary.
